@@ -39,7 +39,7 @@ def prototypes(seed, K, D, kind, complex_):
 
 
 def class_sizes(K, D, kind):
-    if kind == 'huge':
+    if kind in ('huge', 'huge_sorted'):
         # more observations than any internal block size (40 003 in total, not a multiple of a power of two)
         base = 40003 // K
         return [base + (40003 - base * K if k == 0 else 0) for k in range(K)]
@@ -72,7 +72,7 @@ def make(seed, model, K, D, pk, pert, sk, gk, tag):
         y = y * g[:, None]
     elif gk.startswith('all'):
         y = y * float(gk[3:])
-    order = r.permutation(N)
+    order = r.permutation(N) if sk != 'huge_sorted' else np.arange(N)     # 'huge_sorted': frames ordered by class
     if model == 'gmm' and gk.startswith('all'):
         P = P * float(gk[3:])
     return y[order], labels[order], P
@@ -303,6 +303,7 @@ def subchecks(tier, seed):
             for K, D in ((2, 2), (3, 4)):
                 yield (model, K, D, 'rotated', 1e-2, 'huge', 'phasor' if model != 'vmfmm' else 'one', 'onehot', 2,
                        (-1,), seed)
+                yield (model, K, D, 'rotated', 1e-2, 'huge_sorted', 'one', 'onehot', 1, (-1,), seed)
     huge = Sub('fixed_point_many_observations',
                ('model', 'K', 'D', 'protos', 'pert', 'sizes', 'gains', 'blur', 'its', 'wca', 'seed'),
                huge_cases, run, bound=dict(N=40003))
